@@ -20,7 +20,7 @@ def step (line : String) : String :=
     else if op.startsWith "i." then runInstant op args
     else if op.startsWith "s." then runStrpf op args
     else if op.startsWith "c." then runScale op args
-    else if op.startsWith "q." then runSort op args
+    else if op.startsWith "q." || op == "e.rdat" then runSort op args
     else if op == "m.run" then runStream args
     else if op == "z.seq" then runTz args
     else if op == "d.hist" then runDaemon args
